@@ -146,4 +146,68 @@ theorem final_lookup_unshadowed {w : Workload} {e : Einsum} {eff : List Rename}
 theorem evaluatedRenames_eq_with (w : Workload) (rs : List EinsumRename) (e : Einsum) :
     evaluatedRenames w rs e = evaluatedRenamesWith w e (effectiveRenames rs e) := rfl
 
+/-! ## the rebinding of `Persistent` after the workload-level `persistent_tensors` step -/
+
+theorem lookup_map_rebind (e : Einsum) (p : List Name) (l : Table) (n : Name) :
+    lookup (l.map (fun kv => if kv.1 == "Persistent" then (kv.1, tset e p) else kv)) n =
+      if n = "Persistent" then (lookup l n).map (fun _ => tset e p) else lookup l n := by
+  induction l with
+  | nil => simp [lookup]
+  | cons kv rest ih =>
+    obtain ⟨k, v⟩ := kv
+    by_cases hk : k = "Persistent"
+    · subst hk
+      by_cases hn : n = "Persistent"
+      · subst hn; simp [lookup]
+      · have : ("Persistent" == n) = false := by simpa using fun h : "Persistent" = n => hn h.symm
+        simp only [List.map_cons, beq_self_eq_true, if_true, lookup, this, Bool.false_eq_true,
+          if_false, ih, hn]
+    · have hkb : (k == "Persistent") = false := by simpa using hk
+      simp only [List.map_cons, hkb, Bool.false_eq_true, if_false, lookup, ih]
+      by_cases hkn : (k == n) = true
+      · have : n ≠ "Persistent" := by
+          have hkn' : k = n := by simpa using hkn
+          exact hkn' ▸ hk
+        simp [hkn, this]
+      · simp [hkn]
+
+theorem lookup_rebind (e : Einsum) (p : List Name) (l : List (Name × ISet)) (n : Name) :
+    lookup (ofDictLiteral (rebindPersistent e p l)) n =
+      if n = "Persistent" then (lookup (ofDictLiteral l) n).map (fun _ => tset e p)
+      else lookup (ofDictLiteral l) n := by
+  simp only [ofDictLiteral, rebindPersistent, ← List.map_reverse]
+  exact lookup_map_rebind e p l.reverse n
+
+/-- the two ways `einsumTable` comes about -/
+theorem einsumTable_ok {w : Workload} {rs : List EinsumRename} {e : Einsum} {t : Table}
+    (ht : einsumTable w rs e = .ok t) :
+    ∃ l, evaluatedRenames w rs e = .ok l ∧
+      (((w.persistentTensors = none ∨ hasName (effectiveRenames rs e) "Persistent" = true) ∧
+          t = ofDictLiteral l) ∨
+       (w.persistentTensors ≠ none ∧ hasName (effectiveRenames rs e) "Persistent" = false ∧
+          ∃ p, persistentAfterEval w rs e = .ok p ∧ t = ofDictLiteral (rebindPersistent e p l))) := by
+  simp only [einsumTable, finalRenames, bind, Except.bind] at ht
+  cases hl : evaluatedRenames w rs e with
+  | error er => simp [hl] at ht
+  | ok l =>
+    refine ⟨l, rfl, ?_⟩
+    simp only [hl] at ht
+    cases hpt : w.persistentTensors with
+    | none =>
+      simp only [hpt, pure, Except.pure, Except.ok.injEq] at ht
+      exact Or.inl ⟨Or.inl rfl, ht.symm⟩
+    | some pt =>
+      simp only [hpt] at ht
+      cases hp : persistentAfterEval w rs e with
+      | error er => simp [hp] at ht
+      | ok p =>
+        simp only [hp] at ht
+        cases hh : hasName (effectiveRenames rs e) "Persistent" with
+        | true =>
+          simp only [hh, if_true, pure, Except.pure, Except.ok.injEq] at ht
+          exact Or.inl ⟨Or.inr rfl, ht.symm⟩
+        | false =>
+          simp only [hh, Bool.false_eq_true, if_false, pure, Except.pure, Except.ok.injEq] at ht
+          exact Or.inr ⟨by simp, rfl, p, rfl, ht.symm⟩
+
 end AFV.Renames
